@@ -4,7 +4,7 @@
    models DateModel (helper.go) and CropParamModel (cropparam.go); only statements, each closed by
    [exact lemma], and Print Assumptions. *)
 From Coq Require Import ZArith List Bool Ascii String.
-From Hermes Require Import Util Num Calendar DateModel DateProofs CropParamModel CropParamProofs SoilModel SoilProofs CropSamples C13Proofs.
+From Hermes Require Import Util Num Calendar DateModel DateProofs CropParamModel CropParamProofs SoilModel SoilProofs RotaReaderModel RotaReaderProofs CropSamples C13Proofs.
 Local Open Scope Z_scope.
 
 (* the four date formats (with any separator of length <= 1) of one civil date are read as the
@@ -59,6 +59,22 @@ Example C13_soil_nonvacuous :
              sd_azho sd = 2 /\ sd_n sd = 20.
 Proof. exact sample_profile_loads. Qed.
 
+(* crop rotations: the text reader (white-space separated tokens) on the text rendering of an abstract
+   rotation and the CSV reader (cells split at ',', EMPTY CELLS KEPT, columns by header name) on its CSV
+   rendering leave the same rotation — or end in the same error / the same Fatal (date order check) —
+   for every date format and century split, every field id, and all rows whose texts are tokens
+   without blanks resp. cells without commas; a row may end after yld, after autorg, carry a variety,
+   and — in the CSV — a comment behind an empty variety cell (runs without automatic management) *)
+Theorem C13_rotation_agree : forall (T : Type) (NT : Num T) cent f pkt rows, Forall wf_arow rows ->
+  read_rot_txt (T:=T) cent f pkt (render_rot_txt rows) = read_rot_csv cent f pkt (render_rot_csv rows).
+Proof. exact (@rotation_agree_lemma). Qed.
+
+Example C13_rotation_nonvacuous :
+  Forall wf_arow sample_rotation /\
+  exists r, read_rot_csv (T:=PrimFloat.float) 60 DElong (lstr_of "FLD1") (render_rot_csv sample_rotation) = Ok r /\
+            List.length (ro_entries r) = 4%nat /\ List.map (fun e => str_of (re_var e)) (ro_entries r) = (""%string :: "ii"%string :: ""%string :: ""%string :: nil).
+Proof. exact sample_rotation_reads. Qed.
+
 (* non-vacuity: a complete two-stage classic file satisfies every hypothesis of C13_crop_yaml_agree *)
 Example C13_nonvacuous :
   exists r, convert (T:=PrimFloat.float) sample_lines = Some r /\ r_nrkom r = 2 /\ r_nrentw r = 2 /\
@@ -70,3 +86,4 @@ Print Assumptions C13_crop_yaml_agree.
 Print Assumptions C13_bbch_in_range_suffices.
 Print Assumptions C13_bbch_difference_refuted.
 Print Assumptions C13_soil_agree.
+Print Assumptions C13_rotation_agree.
